@@ -66,6 +66,15 @@ class CTChecker(Taint):
         self._vseen.add(k)
         self.violations.append((kind, node, text))
 
+    def has_output(self, name):
+        """a multiplication / exponentiation writes a result through a pointer; a helper with only const pointer and
+        scalar parameters is a predicate on public shape, analysed through its summary like any other callee"""
+        prog = self.eng.prog
+        cal = prog.callees.get(name) or (prog.library.callees.get(name) if getattr(prog, "library", None) is not None else None)
+        if not cal:
+            return True
+        return any("pc" in p and not p["pc"] for p in cal["params"])
+
     def const_select(self, cond):
         fn = self.fn
         for el in fn.all_elements():
@@ -121,7 +130,7 @@ class CTChecker(Taint):
                         if self.prim:
                             if not PRIMS.match(sub[1]):
                                 self.viol("call", n, "secret data passed to `%s`, which is not a constant-time primitive" % sub[1])
-                        elif SCALAR_OPS.match(sub[1]) and sub[1] not in self.ct_set:
+                        elif SCALAR_OPS.match(sub[1]) and sub[1] not in self.ct_set and self.has_output(sub[1]):
                             self.viol("delegate", n, "secret scalar handed to `%s`, which is not a regular / constant-time routine" % sub[1])
 
 
